@@ -57,7 +57,7 @@ PROPS = {
     'C17': dict(
         technique='Verus contracts on lifted real functions (ap tracking, frame state) + Kani function contracts on ApplyApChange impls and builder bookkeeping; composition lemmas in Verus',
         level_text='Deductive proof of the checker side: each function that validates or propagates ap changes satisfies an iff-contract written from the property statement, for all arguments.',
-        level_note='Trusted: A0 (trace-level induction not mechanised), tools, assumed Clone specs; solvers and libfunc ap-change tables are outside.',
+        level_note='Trusted: A0 (trace-level induction not mechanised), tools, assumed Clone specs. The solvers and the libfunc ap-change table are outside contracts; declared-vs-emitted ap movement is covered only by the bounded native path-sum over the Sierra corpus (n_c17_casm_paths), the return check by n_c17_return.',
         scope='Checker side of ap-change soundness: reference shifting, ap tracking accumulation, frame-state transitions, environment merge equality, builder ap bookkeeping.',
         assumptions=[A0, A1, A3, A4],
         outside=['validate_return_properties (Metadata lookup + closure)', 'ApChange mapping inside CompiledInvocationBuilder::build (closure in zip_eq/map/collect)',
@@ -66,7 +66,7 @@ PROPS = {
     'C14': dict(
         technique='Verus overflow/index/unwrap obligations on lifted real functions + Kani bit-precise harnesses; native bounded stand-ins',
         level_text='Panic-freedom (no overflow, no out-of-range index, no failed unwrap, bounded allocation) of each listed unit for all arguments under stated preconditions.',
-        level_note='Per-unit claim, not whole-pipeline. Preconditions cite the upstream validator that establishes them.',
+        level_note='Per-unit claim, not whole-pipeline. Preconditions cite the upstream validator that establishes them. The rest of the untrusted path (ProgramRegistry, solvers, compile loop, build_* generators, type sizes) is covered only by bounded native stand-ins: known-input replay, a structured mutation space over small programs (n_c14_mutations), size-boundary programs (n_c14_type_sizes).',
         scope='Arithmetic, indexing, unwrap and allocation obligations of the units on the untrusted-Sierra path; not the whole pipeline.',
         assumptions=[A0, A1, A3, A4,
                      'A6 preconditions that cite an upstream validator (e.g. type sizes in [0, i16::MAX] from get_type_size_map) trust that validator'],
@@ -76,7 +76,7 @@ PROPS = {
     'C04': dict(
         technique='Kani function-contract proofs on the real cost/wallet/builder-step functions; Verus composition lemmas',
         level_text='Deductive proof of the checker side of gas accounting: cost price is linear with the published table, the wallet update is exact and rejects negatives, merges require equal wallets, builder step counting is exact.',
-        level_note='Trusted: A0, tools. Bounded: wallet key universe (2 tokens), builder var maps (<= 2 vars). Solvers and per-libfunc cost tables are outside.',
+        level_note='Trusted: A0, tools. Bounded Kani units: wallet key universe (2 tokens), builder var maps (<= 2 vars). Outside contracts and covered only by bounded native stand-ins (never counted as proved): the per-libfunc cost table vs emitted code (n_c04_casm_steps, Sierra corpus), gas metadata validation (n_c04_metadata), the caller-side entry cost and run-time price table of the runner (n_c04_entry_cost). The gas solvers are outside.',
         scope='Checker side of gas soundness (DESIGN.md 4/C04).',
         assumptions=[A0, A1, A3, A4],
         outside=['gas solvers (compute_costs.rs, eq-solver)', 'core_libfunc_cost_base.rs tables', "the 'Wrong costs for' comparison inside build_from_casm_builder_ex", 'runner gas accounting'],
@@ -84,7 +84,7 @@ PROPS = {
     'C15': dict(
         technique='Verus contracts on lifted EditState::take_vars/put_vars with an abstract map view; Kani harnesses for type/consistency checks and drop/dup signatures',
         level_text='Deductive proof that the acceptance primitives (take exactly once, never override, types match, merges consistent, drop/dup only when allowed) are right for every map and id list.',
-        level_note='Trusted: A0, tools, assumed indexmap specs (swap_remove/insert as a finite map). compile()\'s own control flow and ProgramRegistry are outside.',
+        level_note='Trusted: A0, tools, assumed indexmap specs (swap_remove/insert as a finite map). compile()\'s own control flow, propagate_annotations and ProgramRegistry::validate_statement are outside contracts and covered only by bounded native stand-ins: n_c15_merge and n_c15_independent (accepted ==> an independent typing/linearity checker accepts, over the corpus and its single mutations).',
         scope='Acceptance primitives of Sierra linearity and typing (DESIGN.md 4/C15).',
         assumptions=[A0, A1, A3, A4, 'A2 indexmap::IndexMap::{swap_remove, insert, reserve, len} behave as an insertion-ordered finite map (assumed specs in the Verus unit)'],
         outside=["compile()'s control flow (DanglingReferences / ExpectedBranchAlign tests)", 'ProgramRegistry::validate_statement', 'libfunc signatures',
@@ -93,7 +93,7 @@ PROPS = {
     'C18': dict(
         technique='Kani inverse-pair harnesses on the real Felt252Serde element codecs; native bounded stand-ins for BigInt codecs; Verus contract on CanonicalReplacer',
         level_text='Deductive proof that every felt252 element codec within reach is an inverse pair (deserialize(serialize(x)) == x, exact consumption, frame on the output vector).',
-        level_note='Element codecs only; Program::{serialize,deserialize} loops, text/JSON serialisations and id replacement of whole programs are outside.',
+        level_note='Element codecs and CanonicalReplacer are proved. The text serialisation (generated LALRPOP parser), the compress/decompress round trip, Vec/BigInt codecs are covered only by bounded native stand-ins (n_c18_text on the repository\'s printed programs, n_c18_compress, n_felt_serde_*). JSON (serde derive) and byte-identical CASM after round trip are not covered.',
         scope='felt252 serde element codecs and canonical renaming (DESIGN.md 4/C18).',
         assumptions=[A0, A1, A3, A4],
         outside=['generic_id_serde! (string ids, keccak table)', 'compress/decompress round trip', 'Program::{serialize,deserialize} loops', 'fmt.rs / LALRPOP grammar', 'JSON (serde derive)'],
@@ -101,7 +101,7 @@ PROPS = {
     'C19': dict(
         technique='Verus contracts with loop invariants on lifted contract_segmentation functions',
         level_text='Deductive proof of the segmentation conjunct: segment lengths are positive and add up to the bytecode length; branch targets stay inside their function.',
-        level_note='Only the segmentation conjunct of C19; the other seven conjuncts live in closures of a 250-line function that needs a full compile.',
+        level_note='Proved: the segmentation conjunct. The other conjuncts live in closures of a 250-line function that needs a full compile; selector order, canonical words, hint offsets, segment sum, reproducibility and the felt round trip are covered only by bounded native stand-ins on the checked-in contract classes (n_c19_class, n_c18_compress). Builtin order, entry offsets vs function starts and hash stability are not covered.',
         scope='Bytecode segmentation conjunct (DESIGN.md 4/C19).',
         assumptions=[A0, A1, A3, A4],
         outside=['find_functions_segments', 'functions_statement_ids_to_offsets', 'consts_segments_offsets', 'all other conjuncts of C19 (selectors, builtins, entry offsets, hashes)'],
